@@ -186,7 +186,7 @@ template <typename CharT, typename SizeT, bool InclusiveSearch>
 }
 
 template <typename CharT, typename SizeT>
-[[nodiscard]] constexpr auto strpbrk_impl(CharT* s, CharT* del) noexcept -> CharT*
+[[nodiscard]] constexpr auto strpbrk_impl(CharT* s, CharT const* del) noexcept -> CharT*
 {
     auto const i = strspn<CharT, SizeT, false>(s, del);
     if (s[i] != CharT(0)) {
@@ -196,7 +196,7 @@ template <typename CharT, typename SizeT>
 }
 
 template <typename CharT>
-[[nodiscard]] constexpr auto strstr_impl(CharT* haystack, CharT* needle) noexcept -> CharT*
+[[nodiscard]] constexpr auto strstr_impl(CharT* haystack, CharT const* needle) noexcept -> CharT*
 {
     if (*needle == CharT(0)) {
         return haystack;
